@@ -52,3 +52,73 @@ def valid_signatures(max_params=3, ret=(inspect.Signature.empty, int), **kw):
 
 def small_types():
     return [int, str, NoneType, A, List[int], Optional[int], Dict[str, int], Tuple[()], Any]
+
+
+# ---- VALS(d, w): the value grammar
+import collections
+from . import fixtures as FX
+
+ATOMS = [0, True, 1.5, "s", b"b", None]
+
+
+def atoms():
+    return ATOMS + [FX.Base(), FX.Left(), FX.Both(), FX.Outer.Inner(), FX.MyList([1]), FX.MyDict(a=1), FX.WithMeta(),
+                    FX.Base, FX.Both, int, len, FX.a_function, (lambda: 0), FX.a_generator()]
+
+
+def vals(depth=2, width=2, limit=None, rnd=None):
+    """Values of nesting depth <= depth and width <= width (exhaustive over a reduced atom set at depth 2)."""
+    base = atoms()
+    if depth == 0:
+        return list(base)
+    small = [0, "s", None, FX.Left(), FX.Base]
+    inner = vals(depth - 1, width) if depth == 1 else [0, "s", None, [0], [], {"a": 0}, {}, (0, "s"), {1}, FX.Left()]
+    out = list(base)
+    elems = small if depth >= 2 else base[:8]
+    combos = [()]
+    for w in range(1, width + 1):
+        combos += list(itertools.product(inner[:7] if depth >= 2 else elems, repeat=w))
+    for c in combos:
+        out.append(list(c))
+        out.append(tuple(c))
+        try:
+            out.append(set(c))
+        except TypeError:
+            pass
+    dict_keys = [("a",), ("a", "b"), (1,), ("a", 1), ()]
+    for ks in dict_keys:
+        for vs in itertools.product(inner[:6], repeat=len(ks)):
+            d = dict(zip(ks, vs))
+            out.append(d)
+            dd = collections.defaultdict(int)
+            dd.update(d)
+            out.append(dd)
+    if limit and len(out) > limit:
+        rnd = rnd or random.Random(0)
+        keep = out[:len(base)] + rnd.sample(out[len(base):], limit - len(base))
+        return keep
+    return out
+
+
+K_LIMITS = [0, 1, 2, 3, 10, 200]
+
+
+def types_corpus(depth=2):
+    """Type terms over the fixture classes (exhaustive small)."""
+    leaves = [int, str, NoneType, FX.Base, FX.Left, FX.Right, FX.Both, FX.Outer.Inner, Any]
+    out = list(leaves)
+    gen1 = []
+    for a in leaves[:6] + [Any]:
+        gen1 += [List[a], Set[a], Tuple[a], Tuple[a, ...], Iterator[a], Dict[str, a], DefaultDict[str, a]]
+    gen1 += [Tuple[()], Callable, Type[FX.Base], Generator[int, NoneType, NoneType], Generator[int, NoneType, str], Dict[Any, Any], List[Any], Set[Any]]
+    out += gen1
+    unions = [Union[int, str], Optional[int], Optional[List[Any]], Union[List[Any], List[int]], Union[Set[Any], List[int]], Union[Set[Any], Set[int], Dict[int, str]],
+              Union[Iterator[Any], int], Union[FX.Left, FX.Right], Union[FX.Left, FX.Both], Union[Dict[str, int], Dict[str, str]], Union[Dict[str, int], Dict[int, str]],
+              Union[int, str, float, bytes, bool, NoneType], Union[Tuple[()], int, str, float, bytes, bool, NoneType], Union[Tuple[int], Tuple[int, int], Tuple[int, int, int], Tuple[()] , int, str, float],
+              Union[Tuple[int], Tuple[int, int], Tuple[int, int, int], Tuple[int, int, int, int], Tuple[int, int, int, int, int], Tuple[int, int, int, int, int, int]],
+              Union[FX.Left, FX.Right, FX.Both, FX.Base, FX.Outer.Inner, FX.MyList], Union[List[int], int], Union[Dict[Any, Any], Dict[int, int]]]
+    out += unions
+    if depth >= 2:
+        for u in unions[:8] + gen1[:10]:
+            out += [List[u], Dict[str, u], Tuple[u, int], Optional[u] if u is not Any else u]
+    return out
